@@ -182,7 +182,7 @@ def run(ctx):
     ctx.level = "exploration"
     ctx.coverage["rule"] = ("behaviours = 24 steps each (honest open/close of the hostile peer's own session and hostile units with 1-3 lying "
                             "fields) drawn by TLC simulation per role and transport; SOCKS5 units = hostile members of the exhaustively "
-                            "enumerated classes, sampled per world in the quick tier; distinct_nontrivial = hostile units presented")
+                            "enumerated classes, sampled per world in the quick tier; distinct_nontrivial = distinct (transport, role, unit classes) tuples and distinct (world, message class) pairs presented")
     ctx.assumptions += ["the hostile peer holds a registered user's credential (unauthenticated input is C05's)",
                         "one process hosts the endpoint under attack and the victim; its death is observed from a supervisor",
                         "segment worlds run in virtual time, SOCKS5 worlds on the loopback interface in real time"]
@@ -200,7 +200,7 @@ def run(ctx):
         ev = run_segments(ctx, exe, wd, beh, "seg")
         hostile = sum(1 for e in ev if e["ev"] == "S" and e["op"] == "unit")
         ctx.coverage["evaluations"] += hostile
-        ctx.coverage["distinct_nontrivial"] += hostile
+        ctx.coverage["distinct_nontrivial"] += len({(e["tr"], e["role"], json.dumps(e["u"], sort_keys=True)) for e in ev if e["ev"] == "S" and e["op"] == "unit"})
         reach = [int(e["note"].split("=")[1]) for e in ev if e["ev"] == "E" and e.get("note", "").startswith("reach=")]
         ctx.coverage["behaviours_in_which_the_real_endpoint_answered_the_hostile_peer"] = "%d of %d" % (sum(1 for r in reach if r > 0), len(reach))
         if reach and sum(1 for r in reach if r > 0) < len(reach) * 0.8:
@@ -229,7 +229,7 @@ def run(ctx):
         add("datagram-to-transceiver", ["datagram"], 150)
         sev = run_socks(ctx, exe, wd, units, "socks")
         ctx.coverage["evaluations"] += sum(1 for e in sev if e["ev"] == "R")
-        ctx.coverage["distinct_nontrivial"] += sum(1 for e in sev if e["ev"] == "R")
+        ctx.coverage["distinct_nontrivial"] += len({(e["world"], json.dumps(e["m"], sort_keys=True)) for e in sev if e["ev"] == "R"})
         ctx.sample({"kind": "SOCKS5 unit as logged", "event": next(e for e in sev if e["ev"] == "R" and e["m"]["k"] == "message")})
         p2 = os.path.join(wd, "socks_events.ndjson")
         vlib.write_ndjson(p2, sev)
